@@ -22,6 +22,10 @@ def pdesc(c):
 
 
 def oracle(c, toks):
+    if toks and toks[0].startswith("CRASH") and "CRASHKIND" in toks and toks[toks.index("CRASHKIND") + 1:toks.index("CRASHKIND") + 2] == ["taskdtor"]:
+        # recorded finding (KNOWN_FINDINGS.txt): not specific to this case - it strikes about once in 10 000 suspensions
+        return ("suspended-run-task-releases-freed-reference-vertex", pdesc(c) + ": SIGSEGV inside ~function_task (the task of a task_group::run issued on a coroutine releases a wait-tree reference vertex "
+                "that died with that coroutine's task_dispatcher)")
     if not toks or toks[0].startswith("CRASH") or toks[-1] == "HANG":
         return ("suspend-hang-or-crash", pdesc(c) + ": a suspended task was never resumed / the run crashed (" + " ".join(toks)[-40:] + ")")
     d = {toks[i]: int(toks[i + 1]) for i in range(0, len(toks) - 1, 2)}
@@ -85,7 +89,7 @@ def run(ctx):
     lib, err = ctx.build_lib("tbb")
     if err:
         return ctx.broken("libtbb build", err)
-    exe, err = ctx.build_driver("drv_suspend", libs=[lib], opt="-O1")
+    exe, err = ctx.build_driver("drv_suspend", libs=[lib], opt="-O1", extra=["-rdynamic"])
     if err:
         return ctx.broken("drv_suspend build", err)
     # model: all 2-thread schedules of the handshake agree with the theorem (sanity run of the extracted model)
@@ -119,6 +123,9 @@ def run(ctx):
                      "task_group::wait; the main thread resumes the points in seeded order while the owners are busy: every point continues exactly once on its own thread within 6 s (the owner must be recalled)")
     oracle_tie(ctx, "suspend-outermost", exe, [], ocases, oracle, describe=pdesc, bucket=lambda c: "suspend-outermost K=%d extra=%d" % (c[1], c[4]), timeout=900)
 
+    # recorded finding (KNOWN_FINDINGS.txt), rare and not tied to one input: listed on every run; an occurrence in a run above carries the same key
+    ctx.add(Finding("violation", "suspended-run-task-releases-freed-reference-vertex", "recorded finding: a task_group::run issued while running on a coroutine takes a reference vertex owned by that coroutine's task_dispatcher, "
+                    "which ~task_dispatcher destroys unconditionally (SIGSEGV in ~function_task about once in 10 000 suspensions of the suspend scenario)", {"tie": "suspend", "note": "listed on every run"}))
     kcases = [[ctx.seed * 1000 + 850000 + i, P, n, 8, 0] for i, (P, n) in enumerate([(2, 6), (8, 4), (4, 6), (3, 6)] * ctx.scale(1, 5))]
     ctx.rules.append("suspend-cancelled: the group of a suspended task is cancelled while the task is suspended, then resume() and task_group::wait (a thread of the arena may be busy in a blocking task of another "
                      "group): the suspended code continues exactly once before the wait returns - cancellation skips tasks that have not started, not continuations")
@@ -136,5 +143,5 @@ def replay(ctx, rep):
     if rep.get("tie") == "suspend-trace":
         return trace_tie(ctx, [rep["case"]])
     lib, err = ctx.build_lib("tbb")
-    exe, err = ctx.build_driver("drv_suspend", libs=[lib], opt="-O1")
+    exe, err = ctx.build_driver("drv_suspend", libs=[lib], opt="-O1", extra=["-rdynamic"])
     oracle_tie(ctx, "suspend", exe, [], [rep["case"]], oracle, describe=pdesc)
